@@ -1,0 +1,31 @@
+//go:build verif
+
+package handlers
+
+// Contracts for the hvc verifier (/verif). Comment-only: this file adds no code
+// with or without the build tag.
+
+//@ func parseAgentRequest(Teamserver agent.TeamServer, Body []byte, ExternalIP string) (r bytes.Buffer, ok bool)
+//@   requires nonnil: Teamserver != nil && logr.LogrInstance != nil
+//@   modifies *
+
+//@ func handleDemonAgent(Teamserver agent.TeamServer, Header agent.Header, ExternalIP string) (r bytes.Buffer, ok bool)
+//@   requires nonnil: Teamserver != nil && Header.Data != nil && logr.LogrInstance != nil
+//@   modifies *
+//@   loop "for Header.Data.CanIRead(([]parser.ReadType{parser.ReadInt32, parser.ReadInt32}))"
+//@     invariant wf: agent.wfAgent(Agent) && Header.Data != nil
+
+//@ func handleServiceAgent(Teamserver agent.TeamServer, Header agent.Header, ExternalIP string) (r bytes.Buffer, ok bool)
+//@   requires nonnil: Teamserver != nil && Header.Data != nil && logr.LogrInstance != nil
+//@   modifies *
+
+// gin hands the handler a context whose Request and Writer are set.
+//@ func (h *HTTP) request(ctx *gin.Context)
+//@   requires nonnil: h != nil && ctx != nil && ctx.Request != nil && ctx.Writer != nil && h.Teamserver != nil && logr.LogrInstance != nil
+//@   modifies *
+//@ func (h *HTTP) fake404(ctx *gin.Context)
+//@   requires nonnil: h != nil && ctx != nil && ctx.Request != nil && ctx.Writer != nil
+//@   modifies *
+//@ func (e *External) Request(ctx *gin.Context)
+//@   requires nonnil: e != nil && ctx != nil && ctx.Request != nil && ctx.Writer != nil && e.Teamserver != nil && logr.LogrInstance != nil
+//@   modifies *
